@@ -199,6 +199,12 @@ def predicate_session(c, out):
     sends = [e for e in events if e[0] == "send"]
     if len(sends) != m["sends"]:
         return "%d commands on the wire, %d expected (a refused operation must send nothing)" % (len(sends), m["sends"])
+    # request ids: one greater (mod 2^16) than the previous completed transaction of this handle - also across a
+    # close / reopen of the same handle (every transaction of these sessions completes)
+    for k, sd in enumerate(sends):
+        if sd[3] != k % 65536:
+            return ("command %d carries request id %d, expected %d (one greater than the previous completed "
+                    "transaction of the handle, across close / reopen too)" % (k, sd[3], k % 65536))
     k = -1
     for e in events:
         if e[0] == "send":
@@ -324,6 +330,9 @@ def main():
         if r.get("kind") != "case":
             print(json.dumps(r, indent=1)[:4000])
             sys.exit(0)
+        if r.get("ckind") in ("enum", "chan"):      # USB layer cases (tools/usbenum.py)
+            import usbenum
+            usbenum.replay(ck, r)
         from vplib import Case
         c = Case("ctl", r["mtoks"].split(), meta=r.get("meta"))
         impl = ck.run_impl(binary, [c.line], big_stack=True)
@@ -352,4 +361,8 @@ def main():
                family="sessions: open negotiates the advertised limits / refused before the wire")
     ck.dist["transactions"] = sum(c.meta["ntx"] for c in cases)
     ck.dist["session cases"] = len(sess)
+    # USB layer (device/src/u3v/channel.rs, device.rs): the real cameleon-device crate
+    # over a scripted fake libusb (rust/h_usb) vs model/UsbChannel.v, see tools/usbenum.py
+    import usbenum
+    usbenum.run_chan(ck)
     ck.finish()
